@@ -335,7 +335,7 @@ Proof.
       eapply (completion_choose_fresh_names _ "V"); [discriminate|exact Hx].
 Qed.
 
-(* the empty completed definitions appended for the missing output predicates (/repo 70e6ace) *)
+(* the empty completed definitions appended for the missing output predicates (/repo 70e6ace, 18b2e85) *)
 Lemma empty_definition_pi q : parser_image (External.empty_definition q).
 Proof.
   unfold External.empty_definition. apply complete_definition_pi; [|intros F []].
@@ -344,8 +344,8 @@ Proof.
   apply in_map_iff in Ht. destruct Ht as [x [<- Hx]]. cbn in Hw. destruct Hw as [<-|[]]. cbn.
   eapply (completion_choose_fresh_names _ "V"); [discriminate|exact Hx].
 Qed.
-Theorem completion_missing_outputs_pi G ins outs D :
-  theory_pi G -> completion G ins = Some D -> theory_pi (D ++ External.missing_output_definitions outs D).
+Theorem completion_missing_outputs_pi G ins outs occ D :
+  theory_pi G -> completion G ins = Some D -> theory_pi (D ++ External.missing_output_definitions outs occ D).
 Proof.
   intros HG E d Hd. apply in_app_or in Hd. destruct Hd as [Hd|Hd].
   - exact (completion_pi G ins D HG E d Hd).
